@@ -1,6 +1,7 @@
 fn main() {
-    // getrandom 0.3 (ahash's seed source) looks `getrandom` up with dlsym(RTLD_DEFAULT): export the
-    // executable's definition so that it, too, gets the simulator's deterministic entropy.
-    println!("cargo:rustc-link-arg=-Wl,--export-dynamic-symbol=getrandom");
-    println!("cargo:rustc-link-arg=-Wl,--export-dynamic-symbol=clock_gettime");
+    // getrandom 0.3 (ahash's seed source) and std's statx wrapper look their libc function up with
+    // dlsym(RTLD_DEFAULT): export the executable's definitions so that they, too, go through the seams.
+    for sym in ["getrandom", "clock_gettime", "statx"] {
+        println!("cargo:rustc-link-arg=-Wl,--export-dynamic-symbol={}", sym);
+    }
 }
